@@ -136,8 +136,8 @@ class U:
         if tagging == "internal":
             cont.append('tag = "%s"' % r.choice(["type", "kind", "t"]))
         elif tagging == "adjacent":
-            tg = r.choice(["type", "t", "tag"])
-            cont.append('tag = "%s", content = "%s"' % (tg, r.choice(["content", "c", "data"])))
+            tg, ct = r.choice([("type", "content"), ("t", "c"), ("tag", "data"), ("kind", "value"), ("a", "b"), ("t", "v")])
+            cont.append('tag = "%s", content = "%s"' % (tg, ct))
         elif tagging == "untagged":
             cont.append("untagged")
         if self.chance(0.35):
@@ -227,6 +227,7 @@ FORCED = [
     ("ForcedDocRecursive", "/// A documented, self-referential type (schemars records the comment as `description` on the root).\n" + DERIVE + "\npub struct ForcedDocRecursive {\n    /// the children\n    pub children: Vec<ForcedDocRecursive>,\n    /// a name\n    #[serde(default)]\n    pub name: String,\n    pub parent: Option<Box<ForcedDocRecursive>>,\n}\n", "struct"),
     ("ForcedDocEnum", "/// Documented enum.\n" + DERIVE + "\n#[serde(tag = \"k\")]\npub enum ForcedDocEnum {\n    /// leaf\n    Leaf { /// payload\n v: u8 },\n    /// node\n    Node { kids: Vec<ForcedDocEnum> },\n}\n", "enum_internal"),
     ("ForcedUntaggedOptionNumeric", DERIVE + "\n#[serde(untagged)]\npub enum ForcedUntaggedOptionNumeric {\n    Count(Option<u32>),\n    Level(f64),\n    Name(String),\n}\n", "enum_untagged"),
+    ("ForcedAdjacentTagFirst", DERIVE + "\n#[serde(tag = \"kind\", content = \"value\")]\npub enum ForcedAdjacentTagFirst {\n    Empty,\n    Circle(f64),\n    Rect { w: u32, h: u32 },\n    Pair(u8, String),\n}\n", "enum_adjacent"),
     ("ForcedFloatMaps", DERIVE + "\n#[serde(rename_all = \"SCREAMING-KEBAB-CASE\")]\npub struct ForcedFloatMaps {\n    pub float_map: ::std::collections::HashMap<String, f32>,\n    pub set_of: ::std::collections::BTreeSet<i64>,\n    #[serde(rename = \"type\")]\n    pub type_: u64,\n}\n", "struct"),
 ]
 
